@@ -104,9 +104,12 @@ Rect(r, c) == [gc |-> c, rows |-> RectRows(r, c)]
 \* saved and reopened ("..o"); ragged tables synthesised as XML and opened
 \* in22 / in32: the table under test is a nested table as AddNestedTable returns it (abstractly a fresh table)
 FreshStarts == {"1x1", "1x3", "3x1", "2x2", "3x3", "in22", "in32"}
-MergedStarts == {"h3", "v3", "r3", "n2", "nn3", "vv4"}
+\* v4: a vertical merge of three rows (a continuation with another continuation beneath it) above a plain row
+MergedStarts == {"h3", "v3", "r3", "n2", "nn3", "vv4", "v4"}
 \* bare3: a rectangular table opened from a part whose cells carry no w:tcPr (optional in the schema)
-OpenedStarts == {"h3o", "v3o", "r3o", "rag", "rag2", "bare3"}
+\* "..w": the table as another producer (Word) spells it in the part: continuation cells carry <w:vMerge/> without
+\*        w:val (the implicit spelling of "continue"), the cells below a merge hold one empty paragraph
+OpenedStarts == {"h3o", "v3o", "r3o", "rag", "rag2", "bare3", "v4o", "v4w", "r4w"}
 AllStarts == FreshStarts \cup MergedStarts \cup OpenedStarts
 
 \* ---- the reference machine --------------------------------------------------
@@ -119,8 +122,37 @@ CellOps == {"SetCellText", "SetCellFormattedText", "AddCellFormattedText", "AddC
 RowOps == {"InsertRow", "AppendRow", "DeleteRow", "DeleteRows"}
 ColOps == {"InsertColumn", "AppendColumn", "DeleteColumn", "DeleteColumns"}
 MergeOps == {"MergeCellsHorizontal", "MergeCellsVertical", "MergeCellsRange", "UnmergeCells"}
-ReadOps == {"ReadAll", "CopyTable", "RowFmt"}
-AllOps == CellOps \cup RowOps \cup ColOps \cup MergeOps \cup ReadOps \cup {"ClearTable", "Start"}
+ReadOps == {"ReadAll", "CopyTable", "RowFmt", "TblFmt"}
+AllOps == CellOps \cup RowOps \cup ColOps \cup MergeOps \cup ReadOps \cup {"ClearTable", "Start", "Create"}
+\* the formatting-only calls that address one cell: op "CellFmt" carries which one in its field f
+FmtKinds == {"SetCellFormat", "SetCellShading", "SetCellTextDirection", "ClearCellFormat", "RemoveCellBorders",
+             "SetCellBorders", "SetCellPadding"}
+
+\* the formatting-only calls that address the whole table: op "TblFmt" carries which one in its field f
+TblFmtKinds == {"ApplyTableStyle", "SetTableBorders", "SetTableShading", "SetTableLayout", "SetTableAlignment",
+                "RemoveTableBorders", "SetTablePageBreak"}
+\* argument classes of the configuration handed to AddNestedTable (field cfg of the operation; absent = "ok"):
+\* a valid one, no rows, no columns, fewer / more column widths than columns
+NestCfgs == {"ok", "no-rows", "no-cols", "fewer-widths", "more-widths"}
+NestCfgOk(op) == "cfg" \notin DOMAIN op \/ op.cfg = "ok"
+
+\* ---- construction -----------------------------------------------------------------
+\* [op |-> "Create", via, rows, cols, nw, grid]: the table under test comes into being through a constructor
+\*   via   entry point: CreateTable | AddTable | AddNestedTable (the table under test is the nested one)
+\*   nw    number of column widths handed in (0 = none: the widths are derived from the table width)
+\*   grid  initial contents, rows of content tokens; may be smaller or larger than rows x cols in both directions
+CreateVias == {"CreateTable", "AddTable", "AddNestedTable"}
+CreateValid(op) == op.rows >= 1 /\ op.cols >= 1 /\ (op.nw = 0 \/ op.nw = op.cols)
+CreateTbl(op) ==
+  [gc |-> op.cols,
+   rows |-> [i \in 1..op.rows |-> [j \in 1..op.cols |->
+               Plain(IF i <= Len(op.grid) THEN DataAt(op.grid[i], j) ELSE 0)]]]
+\* argument class of a construction (second element of its witness signatures, after the entry point)
+CreateClass(op) ==
+  IF op.rows < 1 \/ op.cols < 1 THEN "no-cells"
+  ELSE IF op.nw = 0 THEN "no-widths"
+  ELSE IF op.nw < op.cols THEN "fewer-widths"
+  ELSE IF op.nw = op.cols THEN "widths" ELSE "more-widths"
 
 CellEdit(cell, op) ==
   CASE op.op = "SetCellText"               -> [cell EXCEPT !.tok = op.tok, !.np = IF cell.np < 1 THEN 1 ELSE cell.np]
@@ -194,6 +226,7 @@ SplitRow(row, G, j) ==
 
 Valid(t, op) ==
   CASE op.op = "Start" -> TRUE
+    [] op.op = "Create" -> CreateValid(op)
     [] op.op = "InsertRow" -> op.pos >= 0 /\ op.pos <= NR(t) /\ NR(t) >= 1 /\ Len(op.data) <= t.gc
     [] op.op = "AppendRow" -> NR(t) >= 1 /\ Len(op.data) <= t.gc
     [] op.op = "DeleteRow" -> InR(t, op.i) /\ NR(t) > 1
@@ -202,6 +235,7 @@ Valid(t, op) ==
     [] op.op = "AppendColumn" -> NR(t) >= 1 /\ Len(op.data) <= NR(t)
     [] op.op = "DeleteColumn" -> NR(t) >= 1 /\ op.i >= 0 /\ op.i < t.gc /\ t.gc > 1
     [] op.op = "DeleteColumns" -> NR(t) >= 1 /\ op.a >= 0 /\ op.b < t.gc /\ op.a <= op.b /\ t.gc - (op.b - op.a + 1) >= 1
+    [] op.op = "AddNestedTable" -> InC(t, op.r, op.c) /\ NestCfgOk(op)
     [] op.op \in CellOps -> InC(t, op.r, op.c)
     [] op.op = "MergeCellsHorizontal" ->
          /\ InR(t, op.r) /\ op.a >= 0 /\ op.a < op.b /\ op.b < Len(t.rows[op.r + 1])
@@ -221,7 +255,7 @@ Valid(t, op) ==
                   LET run == RunCovering(t.rows[i], L, R)
                   IN run[1] # 0 /\ AllNone(t.rows[i], run[1], run[2])
     [] op.op = "UnmergeCells" -> InC(t, op.r, op.c)
-    [] OTHER -> TRUE    \* ClearTable, CopyTable, ReadAll, RowFmt
+    [] OTHER -> TRUE    \* ClearTable, CopyTable, ReadAll, RowFmt, TblFmt
 
 Do(t, op) ==
   CASE op.op = "Start" -> t   \* resolved by StartTbl below (Apply is overridden for Start)
@@ -283,6 +317,9 @@ N2 == ApplyOp(Rect(2, 2), [op |-> "AddNestedTable", r |-> 0, c |-> 0])
 \* two vertical merges stacked directly on top of each other in one column
 VV4 == ApplyOp(ApplyOp(Rect(4, 2), [op |-> "MergeCellsVertical", a |-> 0, b |-> 1, c |-> 0]),
                [op |-> "MergeCellsVertical", a |-> 2, b |-> 3, c |-> 0])
+\* three rows merged vertically / a block of three rows by two columns merged, one plain row beneath
+V4 == ApplyOp(Rect(4, 2), [op |-> "MergeCellsVertical", a |-> 0, b |-> 2, c |-> 0])
+R4 == ApplyOp(Rect(4, 3), [op |-> "MergeCellsRange", sr |-> 0, er |-> 2, sc |-> 0, ec |-> 1])
 StartTbl(k) ==
   CASE k = "1x1" -> Rect(1, 1) [] k = "1x3" -> Rect(1, 3) [] k = "3x1" -> Rect(3, 1)
     [] k = "2x2" -> Rect(2, 2) [] k \in {"3x3", "bare3"} -> Rect(3, 3)
@@ -292,11 +329,16 @@ StartTbl(k) ==
     [] k \in {"r3", "r3o"} -> R3
     [] k \in {"n2", "nn3"} -> N2     \* nn3: the nested table itself holds a nested table (same abstract state)
     [] k = "vv4" -> VV4
+    [] k \in {"v4", "v4o", "v4w"} -> V4
+    [] k = "r4w" -> R4
     [] k = "rag"  -> [gc |-> 3, rows |-> <<<<Plain(1), Plain(2), Plain(3)>>, <<Plain(4), Plain(5)>>, <<Plain(6), Plain(7), Plain(8)>> >>]
     [] k = "rag2" -> [gc |-> 3, rows |-> <<<<Plain(1), Plain(2)>>, <<Plain(3), Plain(4), Plain(5)>>, <<Plain(6), Plain(7), Plain(8)>> >>]
 StartToks(k) == MaxOf(TokSetOf(StartTbl(k)))
 
-Apply(t, op) == IF op.op = "Start" THEN StartTbl(op.k) ELSE ApplyOp(t, op)
+\* (a construction that is refused leaves no table)
+Apply(t, op) == IF op.op = "Start" THEN StartTbl(op.k)
+                ELSE IF op.op = "Create" THEN (IF CreateValid(op) THEN CreateTbl(op) ELSE EmptyTbl)
+                ELSE ApplyOp(t, op)
 Ret(t, op) == IF Valid(t, op) THEN "ok" ELSE "err"
 
 \* ---- content tokens ----------------------------------------------------------
@@ -310,6 +352,7 @@ ThePos(t, k) == CHOOSE p \in Occ(t, k) : TRUE
 NewToks(op) ==
   CASE op.op \in {"InsertRow", "AppendRow", "InsertColumn", "AppendColumn"} -> {op.data[i] : i \in 1..Len(op.data)}
     [] op.op \in {"SetCellText", "SetCellFormattedText"} -> {op.tok}
+    [] op.op = "Create" -> UNION {{op.grid[i][j] : j \in 1..Len(op.grid[i])} : i \in 1..Len(op.grid)}
     [] OTHER -> {}
 
 \* positions (1-based row, physical cell) whose content the edit is allowed to change or
@@ -395,8 +438,18 @@ Viol_Frame(b, a, op) ==
                             /\ a.rows[p[1]][j].vm = b.rows[p[1]][p[2]].vm
        IN IF \E p \in Pos(b) \ G : ~Kept(p) THEN {"untargeted-merge-changed"} ELSE {}
 
+\* a construction either fails leaving no table, or yields a well-formed grid; where the plain model accepts the
+\* arguments, the table is the one the plain model says (rows x cols, initial contents in place)
+Viol_Create(op, ret, a) ==
+  IF ret = "panic" THEN {"panic"}
+  ELSE IF ret = "err" THEN (IF a # EmptyTbl THEN {"changed-on-error"} ELSE {})
+  ELSE IF a = EmptyTbl THEN {"no-table"}
+  ELSE IF WFV(a) # {} THEN WFV(a)
+  ELSE IF CreateValid(op) /\ a # CreateTbl(op) THEN {"wrong-place"} ELSE {}
+
 Viol_Step(b, op, ret, a) ==
   IF op.op = "Start" THEN {}
+  ELSE IF op.op = "Create" THEN Viol_Create(op, ret, a)
   ELSE IF ret = "panic" THEN {"panic"}
   ELSE IF ret = "err" THEN (IF a # b THEN {"changed-on-error"} ELSE {})
   ELSE LET rel == NewWFV(b, a) \cup Viol_Preserved(b, a, op) \cup Viol_Frame(b, a, op)
